@@ -26,7 +26,7 @@ COUPLED = ("user_defined_controllers", "round_note_x", "round_pitch_y", "receive
            "do_not_receive_notes_from_keyboard")
 
 
-def plan(tier, seed):
+def _plan_core(tier, seed):
     fx = [os.path.relpath(f, env.FIXTURE_DIR) for f in env.fixtures()]
     n = 8 if tier == "quick" else 32
     return [{"tier": tier, "seed": seed, "shard": i, "fixtures": fx[i::n],
@@ -675,6 +675,11 @@ def handcrafted_files():
 
 
 def run_shard(spec_, res):
+    if spec_.get("part") == "soak":
+        from .. import soak
+        for s_ in spec_["soak_seeds"]:
+            soak.run(res, s_, spec_["tier"], PROPERTY, SOAK_KINDS, spec_["steps"])
+        return
     monitors.install(snapshot_fn=_snap)
     rng = random.Random(env.shard_seed(spec_["shard"]))
     tier = spec_["tier"]
@@ -712,3 +717,16 @@ def finalize(merged, tier):
 
 def replay(case, res):
     res.inconclusive.append("replay by re-running the shard with the recorded seed; file, attribute path and value are in the replay file")
+
+
+# ------------------------------------------------------------------ soak slice (rvmon.soak): long mixed histories on a pool of objects
+SOAK_KINDS = ['edit']
+
+
+def plan(tier, seed):
+    specs = _plan_core(tier, seed)
+    k = 2 if tier == "quick" else 8
+    for i in range(k):
+        specs.append({"tier": tier, "part": "soak", "soak_seeds": [seed * 100003 + 1000 * i + j for j in range(8 if tier == "quick" else 40)],
+                      "steps": 150 if tier == "quick" else 300, "seed": seed, "shard": 1000 + i})
+    return specs
